@@ -2,6 +2,7 @@
 
 Also holds the E3 helpers shared with props/C10.py (driver run with the encoding/json oracle loop,
 the direct limit oracle evaluated on the implementation's own answers)."""
+import json
 import os
 import re
 import struct
@@ -163,6 +164,23 @@ def first_command_fail(op, impl, conf):
     ans = replies[pre_ok] if len(replies) > pre_ok else None
     if pre_ok and (not replies or replies[0] != "OK"):
         return None
+    if ps[0] == b"IDENTIFY" and not pre_ok and ans in ("OK", "JSON") and len(after) >= 4:
+        n = struct.unpack(">i", after[:4])[0]
+        try:
+            d = json.loads(after[4:4 + n].decode("utf-8")) if 0 < n <= len(after) - 4 else None
+        except Exception:
+            d = None
+        if isinstance(d, dict):
+            rng = {"heartbeat_interval": ((-1, 0), 1000, conf["maxHbMs"]),
+                   "output_buffer_timeout": ((-1, 0), conf["minObtMs"], conf["maxObtMs"]),
+                   "output_buffer_size": ((-1, 0), 64, conf["maxObSize"]),
+                   "msg_timeout": ((0,), 1000, conf["maxMtMs"]),
+                   "sample_rate": ((), 0, 99)}
+            for k, (special, lo, hi) in rng.items():
+                v = d.get(k)
+                if isinstance(v, int) and not isinstance(v, bool) and v not in special and not lo <= v <= hi:
+                    return "identify-range", "IDENTIFY %s=%d accepted (documented: %s or %d..%d)" % (
+                        k, v, list(special), lo, hi)
     if ps[0] == b"DPUB" and len(ps) >= 3 and ps[2].isdigit() and ans == "OK":
         if int(ps[2]) * 10**6 > conf["maxReqNs"] and conf["maxReqNs"] < 2**63 - 1:
             return "numeric-overflow", "DPUB delay %s ms accepted (max-req-timeout %d ns)" % (ps[2].decode(), conf["maxReqNs"])
@@ -197,9 +215,18 @@ def http_fail(op, impl, conf):
     if path == b"/pub" and not 1 <= len(body) <= conf["maxMsg"]:
         return "http-pub-size", "/pub accepted a body of %d bytes (max-msg-size %d)" % (len(body), conf["maxMsg"])
     if path == b"/mpub" and len(body) > conf["maxBody"]:
-        if cl == -1 and b"binary=" in query:
-            return "mpub-chunked-size", "chunked binary /mpub accepted a body of %d bytes (max-body-size %d)" % (
-                len(body), conf["maxBody"])
+        if b"binary=" in query and b"binary=false" not in query and b"binary=0" not in query:
+            # binary: what counts is the batch that was decoded (trailing bytes are never read)
+            pos = 4
+            if len(body) >= 4:
+                for _ in range(max(struct.unpack(">i", body[:4])[0], 0)):
+                    if pos + 4 > len(body):
+                        break
+                    pos += 4 + max(struct.unpack(">i", body[pos:pos + 4])[0], 0)
+            if pos > conf["maxBody"]:
+                return "mpub-chunked-size", "binary /mpub (Content-Length %d) accepted a batch of %d bytes (max-body-size %d)" % (
+                    cl, pos, conf["maxBody"])
+            return None
         return "http-mpub-size", "/mpub accepted a body of %d bytes (max-body-size %d)" % (len(body), conf["maxBody"])
     return None
 
@@ -296,6 +323,19 @@ def admin_fail(op, impl, prev_b):
         if k != tkey and eb.get(k) != ea.get(k):
             return "admin-frame", "%s on topic %r changed topic %r" % (unhex(w[3]).decode(), t, bytes.fromhex(k))
     path = unhex(w[3])
+    # named effect of pause / unpause: the flag of the named object is what the PATH says
+    if path in (b"/topic/pause", b"/topic/unpause") and tkey in ea:
+        flag = ea[tkey].split(":")[1]
+        if flag != ("1" if path == b"/topic/pause" else "0"):
+            return "pause-effect", "%s?%s answered 200 and left the topic's pause flag at %s" % (
+                path.decode(), unhex(w[4]).decode("latin1"), flag)
+    if path in (b"/channel/pause", b"/channel/unpause") and tkey in ea:
+        c = q.get("channel", [None])[0]
+        for e in ([] if ea[tkey].split(":")[4] == "-" else ea[tkey].split(":")[4].split("+")):
+            g = e.split(";")
+            if c is not None and g[0] == (c.encode("latin1").hex() or "-") and g[1] != ("1" if path == b"/channel/pause" else "0"):
+                return "pause-effect", "%s?%s answered 200 and left the channel's pause flag at %s" % (
+                    path.decode(), unhex(w[4]).decode("latin1"), g[1])
     if path.startswith(b"/channel/") and path != b"/channel/create" and tkey in eb and tkey in ea:
         c = q.get("channel", [None])[0]
         fb, fa = eb[tkey].split(":"), ea[tkey].split(":")
@@ -316,8 +356,9 @@ def harness_lines(ctx, out, label):
     hist = {}
     for l in out.splitlines():
         if l.startswith("HIST "):
-            _, k, v = l.split()
-            hist[k] = int(v)
+            parts = l.split()
+            if len(parts) == 3 and parts[2].isdigit():
+                hist[parts[1]] = int(parts[2])
     ctx.corr.setdefault("histogram", {})[label] = hist
     fails = [l for l in out.splitlines() if l.startswith("ORACLE-FAIL")]
     okl = [l for l in out.splitlines() if l.startswith("ORACLE-OK")]
@@ -325,9 +366,14 @@ def harness_lines(ctx, out, label):
 
 
 def report_oracle_fail(ctx, line):
-    m = re.match(r"ORACLE-FAIL key=(\S+) (?:stream|req)=(\S+) (?:conf=\S+ )?what=(.*)", line)
+    m = re.match(r"ORACLE-FAIL key=(\S+) (stream|req)=(\S+) (?:conf=(\S+) )?what=(.*)", line)
     if m:
-        ctx.violation(m.group(1), m.group(3)[:400], "harness oracle failure\n%s\n" % line)
+        replay = "# %s\n" % line[:600]
+        if m.group(2) == "stream" and m.group(4) and m.group(3) != "-":
+            replay += "reset\nio %s %s\n" % (m.group(4), m.group(3))      # replayable: ./check C09 --replay <this file>
+        elif m.group(2) == "req" and m.group(3).startswith("http"):
+            replay += "reset\n" + "\n".join(x.replace("|", " ") for x in m.group(3).split("||")) + "\n"
+        ctx.violation(m.group(1), m.group(5)[:400], replay)
     else:
         ctx.violation("harness-oracle", line[:400], line + "\n")
 
@@ -439,7 +485,7 @@ def run(ctx):
         "writes to the client succeed (write errors are I/O faults: E_*_FAILED / send errors are outside the model)",
         "no topic is exiting while a publish runs (E_PUB_FAILED/E_MPUB_FAILED/E_DPUB_FAILED are race-only)",
         "dpub_exact: max-req-timeout below 2^63-1 ns; req_clamp: 0 <= max-req-timeout <= 2^63-1 ns",
-        "mpub_consumed_partial replaces the false full statement mpub_total_le_body_limit (known finding F10)",
+        "F10 repaired (fixes/F10_mpub_body_limit.patch): mpub_total_le_body_limit is a full theorem of the patched tree",
     ]
     ctx.rule = ("correspondence: histories `reset, io…` on four in-process nsqd configurations (small limits S, "
                 "defaults D, tls-required T, compression+saturation Z); an io op is one connection's whole byte "
@@ -482,7 +528,7 @@ def run(ctx):
                 os.remove(os.path.join(corpus, fn))
             with open(os.path.join(corpus, "00_replay.ops"), "w") as f:
                 f.write(open(ctx.replay_in).read())
-        N = 0 if ctx.replay_in else ctx.budget(10000, 100000)
+        N = 0 if ctx.replay_in else ctx.budget(8000, 100000)
         rc, out = ctx.run_cmd([binp, "-test.run", "^TestVerifE3Proto$", "-test.count=1", "-test.timeout=3000s"],
                               timeout=3200, env={"VERIF_SEED": ctx.seed, "VERIF_N": N, "VERIF_OUT": ctx.work,
                                                  "VERIF_REPO": REPO, "VERIF_CORPUS": corpus})
@@ -493,8 +539,12 @@ def run(ctx):
             ctx.log("corr harness failed (rc=%s):\n%s" % (rc, out[-3000:]))
             corr_broken.append("corr harness exit %s" % rc)
             if "panic:" in out or "fatal error:" in out:
-                ctx.violation("panic", "the nsqd process died while serving generated TCP input",
-                              out[-4000:])
+                last = os.path.join(ctx.work, "last.ops")
+                lastops = open(last).read() if os.path.exists(last) else ""
+                pl = [l for l in out.splitlines() if l.startswith("panic:") or l.startswith("fatal error:")]
+                ctx.violation("panic", "the nsqd process died while serving this connection: %s" % (pl[0][:200] if pl else ""),
+                              "# the daemon (test process) died; last connection served:\n%s# output tail:\n# %s\n" % (
+                                  lastops, "\n# ".join(out[-1500:].splitlines())))
         opsf = os.path.join(ctx.work, "proto.ops")
         if os.path.exists(opsf):
             ops = open(opsf).read().splitlines()
